@@ -20,7 +20,7 @@ def tasks(tier):
     ts = []
     for kind in (0, 1, 2):
         for member in range(8):
-            for target in ((0,) if kind == 0 else (0, 1, 2, 3)):
+            for target in ((0,) if kind == 0 else (0, 1, 2, 3, 4)):
                 if tier == 'quick' and kind != 0 and target in (1, 2) and member not in (7, 5):
                     continue
                 ts.append(Task('verifHarness_C11_dispatch', [kind, member, target]))
@@ -40,7 +40,7 @@ def required_reach(tier):
 
 def bounds(tier):
     return {'K4_router_without_dialect': 'node with Dialect = nil: raw v1 / v2 frames (id, payload, checksum symbolic) through WriteFrameAll/To/Except are accepted and handed over once, unchanged; a decoded message is refused',
-            'K1_dispatch': '3 channels with every membership subset + one foreign channel, every target; each queue with an arbitrary '
+            'K1_dispatch': '3 channels with every membership subset + one foreign channel, every target incl. the foreign one and nil; each queue with an arbitrary '
                            'fill level 0..64 (symbolic); map iteration order: every rotation',
             'K3_drain': 'queue of 3 items (message / frame mixes), v1 and v2 link',
             'K4_caller': 'the six Write* entry points, one call each (v2 frames), plus the three WriteFrame* with a v1 frame through the v2 node',
